@@ -11,12 +11,14 @@ package harness
 // multistore, which includes every bank balance and the supply) is dumped and compared with the dump before.
 //
 // Trace lines (see lean/Comdex/Drv/Guards.lean):
-//   grd.msg   handler scn owner names admin brk esm price(1|0|p) base | outcome parentDiffEmpty branchClean victimSame
+//   grd.msg   handler scn owner names admin brk esm needs off mode base | outcome parentDiffEmpty branchClean victimSame
+//             needs = assets whose price record the handler was OBSERVED to read (store tracer), off = assets whose feed is off
 //   grd.wasm  variant chain senderKind sender base | outcome(ok|err:guard|err:inner|panic) diffEmpty
 //   grd.sweep sweep brk esm base | started appDiffEmpty
 
 import (
 	"bytes"
+	"encoding/base64"
 	"math/rand"
 	"crypto/sha256"
 	"encoding/hex"
@@ -99,6 +101,11 @@ type c12World struct {
 	lendPool                  uint64
 	lendPairA1A2              uint64
 	lendA, lendD, borrowA     uint64
+	a4, c4                    uint64 // asset of the second lend pool and its c-asset
+	lendPool2, lendPairX      uint64 // second pool, cross-pool pair a1 -> a4 (bridged through the transit assets a3 / a1)
+	borrowAX                  uint64 // A's cross-pool borrow
+	twaKeys                   map[string]uint64
+	needs                     map[string][]string // case key -> observed price read set
 	liqPair, liqPool          uint64
 	orderA                    uint64
 	poolCoinDenom             string
@@ -217,9 +224,12 @@ func c12Build(t *testing.T) *c12World {
 	w.c1 = w.asset("CASSETONE", "ucasset1", 1000000, false)
 	w.c2 = w.asset("CASSETTWO", "ucasset2", 1000000, false)
 	w.c3 = w.asset("CASSETTHRE", "ucasset3", 1000000, false)
+	w.a4 = w.asset("ASSETFOUR", "uasset4", 1000000, false)
+	w.c4 = w.asset("CASSETFOUR", "ucasset4", 1000000, false)
+	w.twaKeys = map[string]uint64{"a1": w.a1, "a2": w.a2, "a3": w.a3, "a4": w.a4, "c1": w.c1, "c2": w.c2, "c3": w.c3, "c4": w.c4}
 	big := sdk.NewInt(1000000000000000)
 	for _, a := range []sdk.AccAddress{w.A, w.B, w.D} { // C stays unfunded
-		w.fund(a, sdk.NewCoin("uasset1", big), sdk.NewCoin("uasset2", big), sdk.NewCoin("uasset3", big))
+		w.fund(a, sdk.NewCoin("uasset1", big), sdk.NewCoin("uasset2", big), sdk.NewCoin("uasset3", big), sdk.NewCoin("uasset4", big))
 	}
 
 	w.fund(w.B, sdk.NewCoin("ucasset3", big))
@@ -362,6 +372,39 @@ func c12Build(t *testing.T) *c12World {
 		if b.LendingID == w.lendA {
 			w.borrowA = b.ID
 		}
+	}
+
+	// --- lend, second pool (a4 main, a1 / a3 transit) and a cross-pool pair a1 (pool one) -> a4 (pool two)
+	w.must(w.app.LendKeeper.AddPoolRecords(w.ctx, lendtypes.Pool{ModuleName: "osmo", CPoolName: "AFOUR-AONE-ATHREE", AssetData: []*lendtypes.AssetDataPoolMapping{
+		{AssetID: w.a4, AssetTransitType: 1, SupplyCap: sdk.NewDec(3000000000000000000)},
+		{AssetID: w.a1, AssetTransitType: 3, SupplyCap: sdk.NewDec(5000000000000000000)},
+		{AssetID: w.a3, AssetTransitType: 2, SupplyCap: sdk.NewDec(5000000000000000000)},
+	}}), "lend pool 2")
+	for _, p := range w.app.LendKeeper.GetPools(w.ctx) {
+		if p.PoolID != w.lendPool {
+			w.lendPool2 = p.PoolID
+		}
+	}
+	rates(w.a4, w.c4, false)
+	w.must(w.app.LendKeeper.AddLendPairsRecords(w.ctx, lendtypes.Extended_Pair{AssetIn: w.a1, AssetOut: w.a4, IsInterPool: true, AssetOutPoolID: w.lendPool2, MinUsdValueLeft: 1000000}), "cross-pool pair")
+	for _, p := range w.app.LendKeeper.GetLendPairs(w.ctx) {
+		if p.AssetIn == w.a1 && p.AssetOut == w.a4 {
+			w.lendPairX = p.Id
+		}
+	}
+	w.must(w.app.LendKeeper.AddAssetToPair(w.ctx, lendtypes.AssetToPairMapping{AssetID: w.a1, PoolID: w.lendPool, PairID: []uint64{w.lendPairA1A2, w.lendPairA1A3, w.lendPairX}}), "asset to pair (cross-pool)")
+	for _, f := range [][2]interface{}{{w.a4, "uasset4"}, {w.a1, "uasset1"}, {w.a3, "uasset3"}} {
+		w.deliverLive(&lendtypes.MsgFundModuleAccounts{PoolId: w.lendPool2, AssetId: f[0].(uint64), Lender: w.B.String(), Amount: sdk.NewCoin(f[1].(string), sdk.NewInt(10000000000))}, "fund lend pool 2")
+	}
+	w.deliverLive(&lendtypes.MsgBorrow{Borrower: w.A.String(), LendId: w.lendA, PairId: w.lendPairX, IsStableBorrow: false,
+		AmountIn: sdk.NewCoin("ucasset1", sdk.NewInt(500000000)), AmountOut: sdk.NewCoin("uasset4", sdk.NewInt(100000000))}, "cross-pool borrow A")
+	for _, b := range w.app.LendKeeper.GetAllBorrow(w.ctx) {
+		if b.LendingID == w.lendA && b.PairID == w.lendPairX {
+			w.borrowAX = b.ID
+		}
+	}
+	if w.borrowAX == 0 {
+		t.Fatalf("world: cross-pool borrow of A missing")
 	}
 
 	// --- liquidity: pair a1/a2, pool, a resting limit order, MM orders, farm position of A
@@ -594,8 +637,10 @@ type c12Case struct {
 	names   bool   // the message carries the id of the actor's position (a non-owner could name it)
 	keyed   bool   // the position is looked up through the signer
 	app     string // "vault" | "lend" | "liq": the app whose controls apply
-	needs   string // prices the operation values amounts with: "", "a1", "a1a2"
+	needs   string // (documentation only) the prices the operation is expected to read; the trace carries the OBSERVED read set
 	mk      func(w *c12World, s sdk.AccAddress) sdk.Msg
+	prep    func(w *c12World, ctx sdk.Context) // extra staging (liquidation messages: unhealthy positions)
+	tag     string                            // distinguishes several shapes of one handler
 }
 
 // c12K: seeded factor (1..3) applied to the small operation amounts (1000000 units) of the catalogue
@@ -619,132 +664,174 @@ func c12Catalogue() []c12Case {
 		// vault
 		{"vault.MsgCreate", "B", false, false, "vault", "a1a2", func(w *c12World, s sdk.AccAddress) sdk.Msg {
 			return &vaulttypes.MsgCreateRequest{From: s.String(), AppId: w.appVault, ExtendedPairVaultId: w.extPair, AmountIn: i(3000000000), AmountOut: i(400000000)}
-		}},
+		}, nil, ""},
 		{"vault.MsgDeposit", "A", true, false, "vault", "", func(w *c12World, s sdk.AccAddress) sdk.Msg {
 			return &vaulttypes.MsgDepositRequest{From: s.String(), AppId: w.appVault, ExtendedPairVaultId: w.extPair, UserVaultId: w.vaultA, Amount: i(1000000)}
-		}},
+		}, nil, ""},
 		{"vault.MsgWithdraw", "A", true, false, "vault", "a1a2", func(w *c12World, s sdk.AccAddress) sdk.Msg {
 			return &vaulttypes.MsgWithdrawRequest{From: s.String(), AppId: w.appVault, ExtendedPairVaultId: w.extPair, UserVaultId: w.vaultA, Amount: i(1000000)}
-		}},
+		}, nil, ""},
 		{"vault.MsgDraw", "A", true, false, "vault", "a1a2", func(w *c12World, s sdk.AccAddress) sdk.Msg {
 			return &vaulttypes.MsgDrawRequest{From: s.String(), AppId: w.appVault, ExtendedPairVaultId: w.extPair, UserVaultId: w.vaultA, Amount: i(1000000)}
-		}},
+		}, nil, ""},
 		{"vault.MsgRepay", "A", true, false, "vault", "", func(w *c12World, s sdk.AccAddress) sdk.Msg {
 			return &vaulttypes.MsgRepayRequest{From: s.String(), AppId: w.appVault, ExtendedPairVaultId: w.extPair, UserVaultId: w.vaultA, Amount: i(1000000)}
-		}},
+		}, nil, ""},
 		{"vault.MsgClose", "A", true, false, "vault", "", func(w *c12World, s sdk.AccAddress) sdk.Msg {
 			return &vaulttypes.MsgCloseRequest{From: s.String(), AppId: w.appVault, ExtendedPairVaultId: w.extPair, UserVaultId: w.vaultA}
-		}},
+		}, nil, ""},
 		{"vault.MsgDepositAndDraw", "A", true, false, "vault", "a1a2", func(w *c12World, s sdk.AccAddress) sdk.Msg {
 			return &vaulttypes.MsgDepositAndDrawRequest{From: s.String(), AppId: w.appVault, ExtendedPairVaultId: w.extPair, UserVaultId: w.vaultA, Amount: i(100000000)}
-		}},
+		}, nil, ""},
 		{"vault.MsgCreateStableMint", "B", false, false, "vault", "", func(w *c12World, s sdk.AccAddress) sdk.Msg {
 			return &vaulttypes.MsgCreateStableMintRequest{From: s.String(), AppId: w.appVault, ExtendedPairVaultId: w.stablePair2, Amount: i(500000000)}
-		}},
+		}, nil, ""},
 		{"vault.MsgDepositStableMint", "B", false, false, "vault", "", func(w *c12World, s sdk.AccAddress) sdk.Msg {
 			return &vaulttypes.MsgDepositStableMintRequest{From: s.String(), AppId: w.appVault, ExtendedPairVaultId: w.stablePair, Amount: i(200000000), StableVaultId: w.stableID}
-		}},
+		}, nil, ""},
 		{"vault.MsgWithdrawStableMint", "B", false, false, "vault", "", func(w *c12World, s sdk.AccAddress) sdk.Msg {
 			return &vaulttypes.MsgWithdrawStableMintRequest{From: s.String(), AppId: w.appVault, ExtendedPairVaultId: w.stablePair, Amount: i(150000000), StableVaultId: w.stableID}
-		}},
+		}, nil, ""},
 		{"vault.MsgVaultInterestCalc", "B", false, false, "vault", "", func(w *c12World, s sdk.AccAddress) sdk.Msg {
 			return &vaulttypes.MsgVaultInterestCalcRequest{From: s.String(), AppId: w.appVault, UserVaultId: w.vaultA}
-		}},
+		}, nil, ""},
 		// locker
 		{"locker.MsgCreateLocker", "B", false, false, "vault", "", func(w *c12World, s sdk.AccAddress) sdk.Msg {
 			return &lockertypes.MsgCreateLockerRequest{Depositor: s.String(), Amount: i(50000000), AssetId: w.a2, AppId: w.appVault}
-		}},
+		}, nil, ""},
 		{"locker.MsgDepositAsset", "A", true, false, "vault", "", func(w *c12World, s sdk.AccAddress) sdk.Msg {
 			return &lockertypes.MsgDepositAssetRequest{Depositor: s.String(), LockerId: w.lockerA, Amount: i(1000000), AssetId: w.a2, AppId: w.appVault}
-		}},
+		}, nil, ""},
 		{"locker.MsgWithdrawAsset", "A", true, false, "vault", "", func(w *c12World, s sdk.AccAddress) sdk.Msg {
 			return &lockertypes.MsgWithdrawAssetRequest{Depositor: s.String(), LockerId: w.lockerA, Amount: i(1000000), AssetId: w.a2, AppId: w.appVault}
-		}},
+		}, nil, ""},
 		{"locker.MsgCloseLocker", "A", true, false, "vault", "", func(w *c12World, s sdk.AccAddress) sdk.Msg {
 			return &lockertypes.MsgCloseLockerRequest{Depositor: s.String(), AppId: w.appVault, AssetId: w.a2, LockerId: w.lockerA}
-		}},
+		}, nil, ""},
 		{"locker.MsgLockerRewardCalc", "B", false, false, "vault", "", func(w *c12World, s sdk.AccAddress) sdk.Msg {
 			return &lockertypes.MsgLockerRewardCalcRequest{From: s.String(), AppId: w.appVault, LockerId: w.lockerA}
-		}},
+		}, nil, ""},
 		// lend
 		{"lend.Lend", "B", false, false, "lend", "a1", func(w *c12World, s sdk.AccAddress) sdk.Msg {
 			return &lendtypes.MsgLend{Lender: s.String(), AssetId: w.a1, Amount: coin("uasset1", 5000000000), PoolId: w.lendPool, AppId: w.appLend}
-		}},
+		}, nil, ""},
 		{"lend.Withdraw", "A", true, false, "lend", "", func(w *c12World, s sdk.AccAddress) sdk.Msg {
 			return &lendtypes.MsgWithdraw{Lender: s.String(), LendId: w.lendA, Amount: coin("uasset1", 1000000)}
-		}},
+		}, nil, ""},
 		{"lend.Deposit", "A", true, false, "lend", "a1", func(w *c12World, s sdk.AccAddress) sdk.Msg {
 			return &lendtypes.MsgDeposit{Lender: s.String(), LendId: w.lendA, Amount: coin("uasset1", 1000000)}
-		}},
+		}, nil, ""},
 		{"lend.CloseLend", "A", true, false, "lend", "", func(w *c12World, s sdk.AccAddress) sdk.Msg {
 			return &lendtypes.MsgCloseLend{Lender: s.String(), LendId: w.lendA3}
-		}},
+		}, nil, ""},
 		{"lend.Borrow", "A", true, false, "lend", "a1a3", func(w *c12World, s sdk.AccAddress) sdk.Msg {
 			return &lendtypes.MsgBorrow{Borrower: s.String(), LendId: w.lendA, PairId: w.lendPairA1A3, IsStableBorrow: false, AmountIn: coin("ucasset1", 1000000000), AmountOut: coin("uasset3", 200000000)}
-		}},
+		}, nil, ""},
 		{"lend.Repay", "A", true, false, "lend", "", func(w *c12World, s sdk.AccAddress) sdk.Msg {
 			return &lendtypes.MsgRepay{Borrower: s.String(), BorrowId: w.borrowA, Amount: coin("uasset2", 1000000)}
-		}},
+		}, nil, ""},
 		{"lend.DepositBorrow", "A", true, false, "lend", "", func(w *c12World, s sdk.AccAddress) sdk.Msg {
 			return &lendtypes.MsgDepositBorrow{Borrower: s.String(), BorrowId: w.borrowA, Amount: coin("ucasset1", 1000000)}
-		}},
+		}, nil, ""},
 		{"lend.Draw", "A", true, false, "lend", "a1a2", func(w *c12World, s sdk.AccAddress) sdk.Msg {
 			return &lendtypes.MsgDraw{Borrower: s.String(), BorrowId: w.borrowA, Amount: coin("uasset2", 1000000)}
-		}},
+		}, nil, ""},
 		{"lend.CloseBorrow", "A", true, false, "lend", "", func(w *c12World, s sdk.AccAddress) sdk.Msg {
 			return &lendtypes.MsgCloseBorrow{Borrower: s.String(), BorrowId: w.borrowA}
-		}},
+		}, nil, ""},
 		{"lend.BorrowAlternate", "B", false, false, "lend", "a1a2", func(w *c12World, s sdk.AccAddress) sdk.Msg {
 			return &lendtypes.MsgBorrowAlternate{Lender: s.String(), AssetId: w.a1, PoolId: w.lendPool, AmountIn: coin("uasset1", 1000000000), PairId: w.lendPairA1A2, IsStableBorrow: false, AmountOut: coin("uasset2", 200000000), AppId: w.appLend}
-		}},
+		}, nil, ""},
 		{"lend.RepayWithdraw", "A", true, false, "lend", "", func(w *c12World, s sdk.AccAddress) sdk.Msg {
 			return &lendtypes.MsgRepayWithdraw{Borrower: s.String(), BorrowId: w.borrowA}
-		}},
+		}, nil, ""},
 		{"lend.FundModuleAccounts", "B", false, false, "lend", "", func(w *c12World, s sdk.AccAddress) sdk.Msg {
 			return &lendtypes.MsgFundModuleAccounts{PoolId: w.lendPool, AssetId: w.a1, Lender: s.String(), Amount: coin("uasset1", 1000000)}
-		}},
+		}, nil, ""},
 		{"lend.FundReserveAccounts", "B", false, false, "lend", "", func(w *c12World, s sdk.AccAddress) sdk.Msg {
 			return &lendtypes.MsgFundReserveAccounts{AssetId: w.a1, Lender: s.String(), Amount: coin("uasset1", 1000000)}
-		}},
+		}, nil, ""},
 		{"lend.CalculateInterestAndRewards", "A", false, true, "lend", "", func(w *c12World, s sdk.AccAddress) sdk.Msg {
 			return &lendtypes.MsgCalculateInterestAndRewards{Borrower: s.String()}
-		}},
+		}, nil, ""},
 		// liquidity
 		{"liquidity.CancelOrder", "A", true, false, "liq", "", func(w *c12World, s sdk.AccAddress) sdk.Msg {
 			return liquiditytypes.NewMsgCancelOrder(w.appLiq, s, w.liqPair, w.orderA)
-		}},
+		}, nil, ""},
 		{"liquidity.CancelOrder", "A", true, false, "liq", "", func(w *c12World, s sdk.AccAddress) sdk.Msg {
 			return liquiditytypes.NewMsgCancelOrder(w.appLiq, s, w.liqPair, w.mmOrderIDs[0])
-		}},
+		}, nil, ""},
 		{"liquidity.CancelAllOrders", "A", false, true, "liq", "", func(w *c12World, s sdk.AccAddress) sdk.Msg {
 			return liquiditytypes.NewMsgCancelAllOrders(w.appLiq, s, []uint64{w.liqPair})
-		}},
+		}, nil, ""},
 		{"liquidity.CancelMMOrder", "A", false, true, "liq", "", func(w *c12World, s sdk.AccAddress) sdk.Msg {
 			return liquiditytypes.NewMsgCancelMMOrder(w.appLiq, s, w.liqPair)
-		}},
+		}, nil, ""},
 		{"liquidity.MMOrder", "A", false, true, "liq", "", func(w *c12World, s sdk.AccAddress) sdk.Msg {
 			return liquiditytypes.NewMsgMMOrder(w.appLiq, s, w.liqPair, c12Dec("1.09"), c12Dec("1.06"), i(2000000), c12Dec("0.95"), c12Dec("0.92"), i(2000000), 10*time.Hour)
-		}},
+		}, nil, ""},
 		{"liquidity.Unfarm", "A", false, true, "liq", "", func(w *c12World, s sdk.AccAddress) sdk.Msg {
 			return liquiditytypes.NewMsgUnfarm(w.appLiq, w.liqPool, s, sdk.NewCoin(w.poolCoinDenom, i(1000000)))
-		}},
+		}, nil, ""},
 		{"liquidity.UnfarmAndWithdraw", "A", false, true, "liq", "", func(w *c12World, s sdk.AccAddress) sdk.Msg {
 			return liquiditytypes.NewMsgUnfarmAndWithdraw(w.appLiq, w.liqPool, s, sdk.NewCoin(w.poolCoinDenom, i(1000000)))
-		}},
+		}, nil, ""},
 		{"liquidity.Farm", "A", false, true, "liq", "", func(w *c12World, s sdk.AccAddress) sdk.Msg {
 			return liquiditytypes.NewMsgFarm(w.appLiq, w.liqPool, s, sdk.NewCoin(w.poolCoinDenom, i(1000000)))
-		}},
+		}, nil, ""},
 		// auctionsV2 limit bids (keyed by the bidder)
 		{"auctionsV2.MsgDepositLimitBid", "A", false, true, "liq", "", func(w *c12World, s sdk.AccAddress) sdk.Msg {
 			return &auctionsV2types.MsgDepositLimitBidRequest{CollateralTokenId: w.a1, DebtTokenId: w.a2, PremiumDiscount: i(5), Bidder: s.String(), Amount: coin("uasset2", 1000000)}
-		}},
+		}, nil, ""},
 		{"auctionsV2.MsgWithdrawLimitBid", "A", false, true, "liq", "", func(w *c12World, s sdk.AccAddress) sdk.Msg {
 			return &auctionsV2types.MsgWithdrawLimitBidRequest{CollateralTokenId: w.a1, DebtTokenId: w.a2, PremiumDiscount: i(5), Bidder: s.String(), Amount: coin("uasset2", 1000000)}
-		}},
+		}, nil, ""},
 		{"auctionsV2.MsgCancelLimitBid", "A", false, true, "liq", "", func(w *c12World, s sdk.AccAddress) sdk.Msg {
 			return &auctionsV2types.MsgCancelLimitBidRequest{CollateralTokenId: w.a1, DebtTokenId: w.a2, PremiumDiscount: i(5), Bidder: s.String()}
-		}},
+		}, nil, ""},
+		// lend, cross-pool pair (prices of the collateral, the debt asset and both transit assets)
+		{"lend.Borrow", "D", false, false, "lend", "a1a3a4", func(w *c12World, s sdk.AccAddress) sdk.Msg {
+			return &lendtypes.MsgBorrow{Borrower: s.String(), LendId: w.lendD, PairId: w.lendPairX, IsStableBorrow: false, AmountIn: coin("ucasset1", 500000000), AmountOut: coin("uasset4", 100000000)}
+		}, nil, "xpool"},
+		{"lend.DepositBorrow", "A", true, false, "lend", "a1a3", func(w *c12World, s sdk.AccAddress) sdk.Msg {
+			return &lendtypes.MsgDepositBorrow{Borrower: s.String(), BorrowId: w.borrowAX, Amount: coin("ucasset1", 1000000)}
+		}, nil, "xpool"},
+		{"lend.Draw", "A", true, false, "lend", "a1a4", func(w *c12World, s sdk.AccAddress) sdk.Msg {
+			return &lendtypes.MsgDraw{Borrower: s.String(), BorrowId: w.borrowAX, Amount: coin("uasset4", 1000000)}
+		}, nil, "xpool"},
+		// liquidation messages (any keeper may send them; the positions are made unhealthy by a collateral price drop)
+		{"liquidation.MsgLiquidateVault", "B", false, false, "vault", "a1a2", func(w *c12World, s sdk.AccAddress) sdk.Msg {
+			return &liquidationtypes.MsgLiquidateVaultRequest{From: s.String(), AppId: w.appVault, VaultId: w.vaultA}
+		}, c12Unhealthy, ""},
+		{"liquidation.MsgLiquidateBorrow", "B", false, false, "lend", "a1a2", func(w *c12World, s sdk.AccAddress) sdk.Msg {
+			return &liquidationtypes.MsgLiquidateBorrowRequest{From: s.String(), BorrowId: w.borrowA}
+		}, c12Unhealthy, ""},
+		{"liquidationsV2.MsgLiquidateInternalKeeper", "B", false, false, "vault", "a1a2", func(w *c12World, s sdk.AccAddress) sdk.Msg {
+			return &liquidationsV2types.MsgLiquidateInternalKeeperRequest{From: s.String(), LiqType: 0, Id: w.vaultA}
+		}, c12Unhealthy, "vault"},
+		{"liquidationsV2.MsgLiquidateInternalKeeper", "B", false, false, "lend", "a1a2", func(w *c12World, s sdk.AccAddress) sdk.Msg {
+			return &liquidationsV2types.MsgLiquidateInternalKeeperRequest{From: s.String(), LiqType: 1, Id: w.borrowA}
+		}, c12Unhealthy, "borrow"},
 	}
+}
+
+// c12Unhealthy: liquidation enabled in both generations, auction parameters, and a collateral price drop (the price stays
+// ACTIVE) that makes A's vault and A's same-pool borrow liquidatable.
+func c12Unhealthy(w *c12World, ctx sdk.Context) {
+	w.must(w.app.LiquidationKeeper.WasmWhitelistAppIDLiquidation(ctx, w.appVault), "whitelist liquidation")
+	for _, app := range []uint64{w.appVault, w.appLend} {
+		w.app.AuctionKeeper.SetAuctionParams(ctx, auctiontypes.AuctionParams{AppId: app, AuctionDurationSeconds: 300, Buffer: c12Dec("1.2"), Cusp: c12Dec("0.6"),
+			Step: sdk.NewInt(1), PriceFunctionType: 1, SurplusId: 1, DebtId: 2, DutchId: 3, BidDurationSeconds: 300})
+		w.app.NewliqKeeper.SetLiquidationWhiteListing(ctx, liquidationsV2types.LiquidationWhiteListing{AppId: app, Initiator: true, IsDutchActivated: true,
+			DutchAuctionParam:  &liquidationsV2types.DutchAuctionParam{Premium: c12Dec("0.1"), Discount: c12Dec("0.1"), DecrementFactor: sdk.NewInt(1)},
+			IsEnglishActivated: true, EnglishAuctionParam: &liquidationsV2types.EnglishAuctionParam{DecrementFactor: sdk.NewInt(1)}, KeeeperIncentive: c12Dec("0.1")})
+	}
+	_ = w.app.LendKeeper.AddAuctionParamsData(ctx, lendtypes.AuctionParams{AppId: w.appLend, AuctionDurationSeconds: 21600, Buffer: c12Dec("1.2"), Cusp: c12Dec("0.7"),
+		Step: sdk.NewInt(360), PriceFunctionType: 1, DutchId: 3, BidDurationSeconds: 3600})
+	twa, _ := w.app.MarketKeeper.GetTwa(ctx, w.a1)
+	twa.Twa = 200000
+	twa.PriceValue = []uint64{200000}
+	w.app.MarketKeeper.SetTwa(ctx, twa)
 }
 
 func (w *c12World) actor(name string) sdk.AccAddress {
@@ -762,18 +849,57 @@ func (w *c12World) actor(name string) sdk.AccAddress {
 }
 
 type c12Scn struct {
-	brk   bool
-	esm   string // "none" | "in" | "after"
-	price string // "all" (active) | "none" | "a1" | "a2" | "a3" (only that one inactive)
-	days  int    // time passed since the world was built
+	brk     bool
+	esm     string // "none" | "in" | "after"
+	price   string // "all" (every feed active) | "none" (every feed off) | comma list of the assets whose feed is off
+	missing bool   // off = the TWA record does not exist at all (instead of IsPriceActive=false)
+	days    int    // time passed since the world was built
+}
+
+var c12AssetNames = []string{"a1", "a2", "a3", "a4", "c1", "c2", "c3", "c4"}
+
+// offSet: the assets whose price feed is off in the scenario
+func (scn c12Scn) offSet() []string {
+	switch scn.price {
+	case "all", "":
+		return nil
+	case "none":
+		return c12AssetNames
+	}
+	return strings.Split(scn.price, ",")
+}
+
+func (scn c12Scn) mode() string {
+	if scn.missing {
+		return "missing"
+	}
+	return "inactive"
+}
+
+// priceOff switches the feeds of the scenario off on ctx
+func (w *c12World) priceOff(ctx sdk.Context, scn c12Scn) {
+	for _, name := range scn.offSet() {
+		id := w.twaKeys[name]
+		if scn.missing {
+			ctx.KVStore(w.app.GetKey(markettypes.StoreKey)).Delete(markettypes.TwaKey(id))
+			continue
+		}
+		twa, _ := w.app.MarketKeeper.GetTwa(ctx, id)
+		twa.IsPriceActive = false
+		w.app.MarketKeeper.SetTwa(ctx, twa)
+	}
 }
 
 // stage prepares a branch of the world for a scenario: time, breaker, ESM status (+ the real esm BeginBlocker so that the
 // price snapshot exists, as on chain one block after ExecuteESM), price activity.
-func (w *c12World) stage(scn c12Scn, appID uint64) sdk.Context {
+func (w *c12World) stage(scn c12Scn, c c12Case) sdk.Context {
+	appID := w.appOf(c)
 	ctx, _ := w.ctx.CacheContext()
 	now := w.ctx.BlockTime().Add(time.Duration(scn.days) * 24 * time.Hour)
 	ctx = ctx.WithBlockTime(now).WithBlockHeight(w.ctx.BlockHeight() + int64(scn.days)*14400 + 1)
+	if c.prep != nil {
+		c.prep(w, ctx)
+	}
 	if scn.brk {
 		w.must(w.app.EsmKeeper.SetKillSwitchData(ctx, esmtypes.KillSwitchParams{AppId: appID, BreakerEnable: true}), "breaker")
 	}
@@ -785,16 +911,65 @@ func (w *c12World) stage(scn c12Scn, appID uint64) sdk.Context {
 			ctx = ctx.WithBlockTime(now.Add(2 * time.Hour))
 		}
 	}
-	if scn.price != "all" {
-		for name, id := range map[string]uint64{"a1": w.a1, "a2": w.a2, "a3": w.a3} {
-			if scn.price == "none" || scn.price == name {
-				twa, _ := w.app.MarketKeeper.GetTwa(ctx, id)
-				twa.IsPriceActive = false
-				w.app.MarketKeeper.SetTwa(ctx, twa)
-			}
+	w.priceOff(ctx, scn)
+	return ctx
+}
+
+func (c c12Case) key() string { return c.handler + "/" + c.tag }
+
+// needsOf: which assets' price records the real handler READS when the message is delivered with every control clear and
+// every feed active — observed with the store tracer of the multistore (tracekv logs every read that reaches the
+// transaction state): an asset is needed iff its TWA record (exact key and value) was read.
+func (w *c12World) needsOf(c c12Case) []string {
+	ctx := w.stage(c12Scn{esm: "none", price: "all"}, c)
+	tx, _ := ctx.CacheContext()
+	var buf bytes.Buffer
+	// cachemulti.Store is a value type: SetTracer returns the traced copy; its branch wraps every store in tracekv
+	msgCtx := tx.WithMultiStore(tx.MultiStore().SetTracer(&buf).CacheMultiStore())
+	msg := c.mk(w, w.actor(c.owner))
+	try(func() {
+		if msg.ValidateBasic() != nil {
+			return
+		}
+		if h := w.app.MsgServiceRouter().Handler(msg); h != nil {
+			_, _ = h(msgCtx, msg)
+		}
+	})
+	type op struct {
+		Operation string `json:"operation"`
+		Key       string `json:"key"`
+		Value     string `json:"value"`
+	}
+	read := map[string]bool{}
+	for _, ln := range strings.Split(buf.String(), "\n") {
+		var o op
+		if ln == "" || json.Unmarshal([]byte(ln), &o) != nil || o.Operation != "read" {
+			continue
+		}
+		read[o.Key+"|"+o.Value] = true
+	}
+	var out []string
+	st := ctx.KVStore(w.app.GetKey(markettypes.StoreKey))
+	for _, name := range c12AssetNames {
+		k := markettypes.TwaKey(w.twaKeys[name])
+		v := st.Get(k)
+		if v != nil && read[base64.StdEncoding.EncodeToString(k)+"|"+base64.StdEncoding.EncodeToString(v)] {
+			out = append(out, name)
 		}
 	}
-	return ctx
+	return out
+}
+
+func (w *c12World) computeNeeds(cat []c12Case, tr *Trace) {
+	w.needs = map[string][]string{}
+	all := map[string]string{}
+	for _, c := range cat {
+		w.needs[c.key()] = w.needsOf(c)
+		all[c.key()] = strings.Join(w.needs[c.key()], ",")
+	}
+	if tr != nil {
+		tr.Set("price_read_sets", all)
+	}
 }
 
 func (w *c12World) appOf(c c12Case) uint64 {
@@ -809,18 +984,9 @@ func (w *c12World) appOf(c c12Case) uint64 {
 
 func (w *c12World) emit(tr *Trace, c c12Case, scnName string, signer string, admin bool, scn c12Scn, base bool, r c12Result) {
 	owner := signer == c.owner
-	// "1": every price the operation needs is active; "0": none of them is; "p": some are, some are not
-	priceOK := "1"
-	if scn.price == "none" && c.needs != "" {
-		priceOK = "0"
-	} else if scn.price != "all" && scn.price != "none" && strings.Contains(c.needs, scn.price) {
-		priceOK = "p"
-		if c.needs == scn.price {
-			priceOK = "0"
-		}
-	}
 	tr.Line("grd.begin", c.handler, scnName)
-	tr.Line("grd.msg", c.handler, scnName, c12b01(owner), c12b01(c.names), c12b01(admin), c12b01(scn.brk), scn.esm, priceOK, c12b01(base),
+	tr.Line("grd.msg", c.handler, scnName, c12b01(owner), c12b01(c.names), c12b01(admin), c12b01(scn.brk), scn.esm,
+		strings.Join(w.needs[c.key()], ","), strings.Join(scn.offSet(), ","), scn.mode(), c12b01(base),
 		r.outcome, c12b01(r.parentEmpty), c12b01(r.branchClean), c12b01(r.victimSame))
 	tr.Count("msg:" + c.handler + ":" + r.outcome)
 	if base {
@@ -849,6 +1015,7 @@ func TestC12(t *testing.T) {
 	c12Seed(tr)
 	w := c12Build(t)
 	cat := c12Catalogue()
+	w.computeNeeds(cat, tr)
 	states := []int{0, 30}
 	if thorough() {
 		states = []int{0, 1, 30, 365}
@@ -863,7 +1030,7 @@ func TestC12(t *testing.T) {
 				if (c.names || c.keyed) && c.owner != "A" {
 					continue
 				}
-				ctx := w.stage(scn, w.appOf(c))
+				ctx := w.stage(scn, c)
 				before := w.dump(ctx)
 				r := w.deliver(ctx, before, w.victimProj(ctx), c.mk(w, w.actor(signer)))
 				w.emit(tr, c, fmt.Sprintf("own/d%d/%s", days, signer), signer, false, scn, signer == c.owner, r)
@@ -905,14 +1072,18 @@ func c12TxCase(t *testing.T, tr *Trace, c c12Case, signer, scnName string, scn c
 	txCfg := chain.MakeEncodingConfig().TxConfig
 	rnd := rand.New(rand.NewSource(int64(seed())))
 	w := c12Build(t)
+	w.needs = map[string][]string{c.key(): w.needsOf(c)}
 	hdr := tmproto.Header{Height: w.app.LastBlockHeight() + 1, Time: w.ctx.BlockTime().Add(time.Minute)}
 	w.app.BeginBlock(abci.RequestBeginBlock{Header: hdr})
 	ctx := w.app.BaseApp.NewContext(false, hdr)
 	// the market BeginBlocker found no fresh band-oracle data and switched the prices off: feed them again
-	for _, id := range []uint64{w.a1, w.a2, w.a3, w.c1, w.c2, w.c3} {
+	for _, id := range w.twaKeys {
 		twa, _ := w.app.MarketKeeper.GetTwa(ctx, id)
 		twa.IsPriceActive = true
 		w.app.MarketKeeper.SetTwa(ctx, twa)
+	}
+	if c.prep != nil {
+		c.prep(w, ctx)
 	}
 	appID := w.appOf(c)
 	if scn.brk {
@@ -925,15 +1096,7 @@ func c12TxCase(t *testing.T, tr *Trace, c c12Case, signer, scnName string, scn c
 		}
 		w.app.EsmKeeper.SetESMStatus(ctx, esmtypes.ESMStatus{AppId: appID, Executor: w.B.String(), Status: true, StartTime: hdr.Time.Add(-2 * time.Hour), EndTime: end})
 	}
-	if scn.price != "all" {
-		for name, id := range map[string]uint64{"a1": w.a1, "a2": w.a2, "a3": w.a3} {
-			if scn.price == "none" || scn.price == name {
-				twa, _ := w.app.MarketKeeper.GetTwa(ctx, id)
-				twa.IsPriceActive = false
-				w.app.MarketKeeper.SetTwa(ctx, twa)
-			}
-		}
-	}
+	w.priceOff(ctx, scn)
 	who := w.actor(signer)
 	acc := w.app.AccountKeeper.GetAccount(ctx, who)
 	if acc == nil {
@@ -988,11 +1151,11 @@ func c12KillSwitch(t *testing.T, tr *Trace, w *c12World) {
 		for _, signer := range []string{"admin", "A", "B", "C"} {
 			who := w.actor(signer)
 			msg := &esmtypes.MsgKillRequest{From: who.String(), KillSwitchParams: &esmtypes.KillSwitchParams{AppId: w.appVault, BreakerEnable: on}}
-			ctx := w.stage(c12Scn{esm: "none", price: "all", brk: !on}, w.appVault)
+			ctx := w.stage(c12Scn{esm: "none", price: "all", brk: !on}, c)
 			before := w.dump(ctx)
 			r := w.deliver(ctx, before, w.victimProj(ctx), msg)
 			tr.Line("grd.begin", c.handler, "kill/"+signer+"/"+c12b01(on))
-			tr.Line("grd.msg", c.handler, "kill/"+signer+"/"+c12b01(on), "1", "0", c12b01(signer == "admin"), c12b01(!on), "none", "1", c12b01(signer == "admin"),
+			tr.Line("grd.msg", c.handler, "kill/"+signer+"/"+c12b01(on), "1", "0", c12b01(signer == "admin"), c12b01(!on), "none", "", "", "inactive", c12b01(signer == "admin"),
 				r.outcome, c12b01(r.parentEmpty), c12b01(r.branchClean), c12b01(r.victimSame))
 			tr.Count("kill:" + signer + ":" + r.outcome)
 		}
@@ -1188,10 +1351,10 @@ func TestC14(t *testing.T) {
 	c12Seed(tr)
 	w := c12Build(t)
 	cat := c12Catalogue()
+	w.computeNeeds(cat, tr)
 	prices := []string{"all", "none"}
 	days := []int{0}
 	if thorough() {
-		prices = []string{"all", "none", "a1", "a2", "a3"}
 		days = []int{0, 30}
 	}
 	for _, d := range days {
@@ -1200,7 +1363,7 @@ func TestC14(t *testing.T) {
 				for _, esmS := range []string{"none", "in", "after"} {
 					for _, pr := range prices {
 						scn := c12Scn{brk: brk, esm: esmS, price: pr, days: d}
-						ctx := w.stage(scn, w.appOf(c))
+						ctx := w.stage(scn, c)
 						before := w.dump(ctx)
 						r := w.deliver(ctx, before, w.victimProj(ctx), c.mk(w, w.actor(c.owner)))
 						base := !brk && esmS == "none" && pr == "all"
@@ -1216,6 +1379,7 @@ func TestC14(t *testing.T) {
 			}
 		}
 	}
+	c14PriceSubsets(t, tr, w, cat)
 	c14Sweeps(t, tr, w)
 	if thorough() {
 		// the same control settings through the real DeliverTx (baseapp's own message cache) for every handler the property names
@@ -1224,8 +1388,8 @@ func TestC14(t *testing.T) {
 			if c.app == "vault" {
 				scns = append(scns, c12Scn{esm: "in", price: "all"}, c12Scn{esm: "after", price: "all"})
 			}
-			if c.needs != "" {
-				scns = append(scns, c12Scn{esm: "none", price: "none"})
+			if n := w.needs[c.key()]; len(n) > 0 {
+				scns = append(scns, c12Scn{esm: "none", price: "none"}, c12Scn{esm: "none", price: n[len(n)-1]}, c12Scn{esm: "none", price: n[0], missing: true})
 			}
 			scns = append(scns, c12Scn{esm: "none", price: "all"})
 			for si, scn := range scns {
@@ -1234,6 +1398,75 @@ func TestC14(t *testing.T) {
 			}
 		}
 	}
+}
+
+// c14PriceSubsets: "for every subset of assets whose price feed is inactive". For every message shape whose handler reads
+// prices (observed read set N, printed in the trace): each single asset of N off, all of N off, every asset off (thorough:
+// every non-empty subset of N) — once as `IsPriceActive=false`, once with the TWA record missing altogether — and the
+// complement (every asset NOT in N off: the message must still succeed, i.e. N is complete).
+func c14PriceSubsets(t *testing.T, tr *Trace, w *c12World, cat []c12Case) {
+	cells := 0
+	for _, c := range cat {
+		n := w.needs[c.key()]
+		if len(n) == 0 {
+			continue
+		}
+		var subsets [][]string
+		if thorough() {
+			for m := 1; m < 1<<len(n); m++ {
+				var sub []string
+				for j, x := range n {
+					if m&(1<<j) != 0 {
+						sub = append(sub, x)
+					}
+				}
+				subsets = append(subsets, sub)
+			}
+		} else {
+			for _, x := range n {
+				subsets = append(subsets, []string{x})
+			}
+			if len(n) > 1 {
+				subsets = append(subsets, n)
+			}
+		}
+		subsets = append(subsets, c12AssetNames)
+		var rest []string
+		for _, a := range c12AssetNames {
+			in := false
+			for _, x := range n {
+				if x == a {
+					in = true
+				}
+			}
+			if !in {
+				rest = append(rest, a)
+			}
+		}
+		run := func(sub []string, missing, base bool) {
+			scn := c12Scn{esm: "none", price: strings.Join(sub, ","), missing: missing}
+			ctx := w.stage(scn, c)
+			before := w.dump(ctx)
+			r := w.deliver(ctx, before, w.victimProj(ctx), c.mk(w, w.actor(c.owner)))
+			w.emit(tr, c, fmt.Sprintf("price/%s/off-%s/%s", c.tag, scn.price, scn.mode()), c.owner, false, scn, base, r)
+			cells++
+			tr.Count("pricecell:" + c.key())
+			tr.Count("pricecell-outcome:" + r.outcome)
+			if !base && (r.outcome == "ok" || !r.parentEmpty) {
+				t.Logf("price subset: %s with %v %s: %s changed=%v", c.key(), sub, scn.mode(), r.outcome, r.changed)
+			}
+			if base && r.outcome != "ok" {
+				t.Logf("price subset: %s with only the unneeded feeds %v %s failed: %s", c.key(), sub, scn.mode(), r.errText)
+			}
+		}
+		for _, sub := range subsets {
+			run(sub, false, false)
+			run(sub, true, false)
+		}
+		run(rest, false, true)
+		run(rest, true, true)
+	}
+	tr.Set("price_cells", cells)
 }
 
 // sweepStage: an unhealthy vault and borrow (collateral price drop), liquidation enabled in both generations, auction
